@@ -236,6 +236,8 @@ class Check:
         }
         if self.cross is not None:
             cov["second_solver"] = self.cross
+        if getattr(self, "cross_engine", None) is not None:
+            cov["second_engine_crosshair"] = self.cross_engine
         if extra:
             cov.update(extra)
         ev = {
